@@ -1,6 +1,7 @@
 package badger
 
 import (
+	"strings"
 	"fmt"
 	"math/big"
 	"time"
@@ -286,6 +287,11 @@ func VerifC12() {
 	w := &verifC12{d: verifDriver()}
 	w.spec = storespec.New(verifapi.Now)
 	w.ids = []store.NodeID{store.NodeID(verifapi.NodeID(0)), store.NodeID(verifapi.NodeID(1)), ""}
+	if verifapi.Param("spellings", 0) == 1 {
+		// node ids are self-reported strings: the second node spells its id in upper case, and the lower-case
+		// spelling is a different (here never registered) id
+		w.ids = []store.NodeID{store.NodeID(verifapi.NodeID(0)), store.NodeID(strings.ToUpper(verifapi.NodeID(1))), store.NodeID(verifapi.NodeID(1))}
+	}
 	w.accts = []store.Account{store.Account(verifapi.Wallet(0)), store.Account(verifapi.Wallet(1))}
 	focus := verifapi.Param("focus", 0) // 0: balances and links, 1: nodes, peers, active hosts, 2: nonces
 	t0 := verifapi.Time("t0")
